@@ -7,6 +7,7 @@ VERIF = os.path.dirname(os.path.dirname(os.path.abspath(__file__)))
 
 # property -> contract modules (sidecar), extra engines
 PROPS = {
+    "C12": dict(modules=["contracts.c12_simplify"]),
     "C13": dict(modules=["contracts.c13_range"]),
 }
 
@@ -32,7 +33,7 @@ def _slug(s):
 
 
 def _worker(job):
-    cid, module, tmo = job
+    cid, module, tmo, prefixes, expand = job
     try:
         sys.path.insert(0, VERIF)
         from pyvc.run import run_contract, ensure_repo_on_path
@@ -40,7 +41,7 @@ def _worker(job):
         importlib.import_module(module)
         from pyvc.contract import REGISTRY
         c = REGISTRY[cid]
-        r = run_contract(c, timeout_ms=tmo)
+        r = run_contract(c, timeout_ms=tmo, prefixes=prefixes, expand=expand)
         return cid, r, None
     except Exception as e:
         return cid, None, "".join(traceback.format_exception(e))[-3000:]
@@ -107,16 +108,33 @@ def run_property(args):
     if args.only:
         cids = [c for c in cids if args.only in c]
     tmo = 60000 if tier == "thorough" else 10000
-    jobs = [(cid, mod_of[cid], tmo) for cid in cids]
+    from pyvc.run import merge_results
     results = {}
     crashes = []
     ctxm = mp.get_context("fork")
-    with ctxm.Pool(min(args.jobs, max(1, len(jobs)))) as pool:
-        for cid, r, err in pool.imap_unordered(_worker, jobs):
+    with ctxm.Pool(args.jobs) as pool:
+        # phase 1: the first two levels of every path tree (cheap), so that
+        # phase 2 can spread sub-trees of big functions over all cores
+        frontier = {cid: [()] for cid in cids}
+        for _round in range(3):
+            jobs = [(cid, mod_of[cid], tmo, ps, False) for cid, ps in frontier.items() if ps]
+            frontier = {}
+            for cid, r, err in pool.imap_unordered(_worker, jobs):
+                if err:
+                    crashes.append((cid, err))
+                    continue
+                results[cid] = merge_results(results[cid], r) if cid in results else r
+                frontier[cid] = list(r.pending)
+        jobs = []
+        for cid, ps in frontier.items():
+            for p in ps:
+                jobs.append((cid, mod_of[cid], tmo, [p], True))
+        jobs.sort(key=lambda j: -len(j[3][0]))
+        for cid, r, err in pool.imap_unordered(_worker, jobs, chunksize=1):
             if err:
                 crashes.append((cid, err))
             else:
-                results[cid] = r
+                results[cid] = merge_results(results[cid], r) if cid in results else r
 
     # extra engines (ownership analysis, C helper VC, bounded stand-ins ...)
     extra = []
@@ -278,7 +296,7 @@ def run_property(args):
             checker_cmd=f"./check {prop} --tier {tier}",
             trusted_base=["pyvc VC generator (/verif/pyvc)", "z3 %s" % _z3v(), "CPython 3.12 (hosts the interpreter and the replay)"],
             functions=sorted(functions),
-            by_backend={"z3": dis},
+            by_backend=_backends(results, dis),
             solver_time_s=round(solver_time, 3),
             per_contract=per_contract,
             undecided=[f"{c}: {l} (unknown)" for c, l, _, _ in unknown] + [f"{c}: unsupported: {u}" for c, u in unsupported]
@@ -341,6 +359,13 @@ def match_known(known, prop, cid, label, c, ob, choices):
         except Exception:
             pass
     return None
+
+
+def _backends(results, dis):
+    fresh = sum(r.backends.get("z3-fresh", 0) for r in results.values())
+    cli = sum(r.backends.get("cli", 0) for r in results.values())
+    return {"z3 (incremental, python API)": max(0, dis - fresh - cli),
+            "z3 (fresh solver)": fresh, "z3-new / cvc5 CLI": cli}
 
 
 def _z3v():
